@@ -250,7 +250,8 @@ func (p *staticProfile) observe() {
 		if step, lowered := p.limitLower[name]; lowered && step > 0 {
 			// the user lowered the limit or the replica count during the run: NodeClaims created under the old limit may
 			// exceed the new one until deprovisioning catches up; from then on the limit is enforced again
-			if int64(count[name]) <= lim.Value() {
+			// (not before reconciles that read the pool before the edit, or a lagging cached copy of it, are over)
+			if int64(count[name]) <= lim.Value() && s.Now().Sub(p.lastEdit[name]) > 3*time.Minute {
 				delete(p.limitLower, name)
 			}
 			continue
